@@ -100,6 +100,9 @@ func runTree(o *opts) {
 	rmrf(filepath.Join(o.out, "w"))
 }
 
+// lastBufPair: the scenario that last got the pair of 64 KiB files (one directory scenario in 34 does)
+var lastBufPair = -100
+
 func oneTree(o *opts, r *rng, s *summary, i int, sc treeScenario, distinct map[string]bool) []*Transition {
 	base := scenarioDir(o, "tree", i)
 	defer rmrf(base)
@@ -121,12 +124,14 @@ func oneTree(o *opts, r *rng, s *summary, i int, sc treeScenario, distinct map[s
 	case "file":
 		art = nFile(genContent(r, &pool))
 		if i%17 == 3 { // one content around the 64 KiB hashing buffer per run
-			art = nFile(r.bytes([]int{65535, 65536, 65537}[r.intn(3)]))
+			art = nFile(r.bytes([]int{65536, 65537, 65535}[(i/17)%3]))
+			r.intn(3)
 			s.count("size:64KiB")
 		}
 	default:
 		art = genTree(r, 0, to, &pool, s)
-		if i%34 == 3 {
+		if i >= 3 && i-lastBufPair >= 34 {
+			lastBufPair = i
 			// contents of exactly the hashing buffer's size, two different ones, next to an empty file:
 			// three different objects
 			art.set("buf_a.bin", nFile(r.bytes(65536)))
